@@ -7,6 +7,7 @@ import Fx.Xdr
 import Fx.Lemmas.Runtime
 import Fx.Lemmas.Roundtrip
 import Fx.Lemmas.Selects
+import Fx.Props.C12
 namespace Fx.C01
 open Fx
 
@@ -88,5 +89,52 @@ theorem C01_wire_size_supported (a : Ast) (m : Module) (hs : Supported a = true)
     (n : String) (x : XVal) (h : hasTypeNamed a n x = true) :
     wsVal m.plans (reprNamed a n 0 x) = x.enc.length :=
   C01_wire_size_is_encoded_length a m hs hg (match_selects_of_supported hs hg) n x h
+
+/-- **C01 end to end, from the specification text.**  Take any well-formed text (`Spec.ok`: the concrete syntax with an arbitrary
+    layout — blanks, tabs, any line ending, block and line comments — at every gap).  Its declarations determine a node list, an
+    item list and, through the three indexes, an `Ast` (`C12_ast_closed_form_total`: that *is* what `Ast::new` returns).  If the
+    type names are declared once and the specification's *content* is in the supported subset (`SupportedContent`: which constructs
+    it uses and how things are named — `C12_supported_iff_content` shows the rest of `Supported` holds by construction), then
+    `Ast::new` of the text is `Ok(a)`, and for every module the generator emits for it, every declared type, every well-typed
+    value, every suffix and offset, the emitted decoder applied to the RFC 4506 encoding returns exactly the documented value and
+    leaves the cursor just behind the encoding.  Nothing in the statement mentions tokens, budgets or indexes. -/
+theorem C01_roundtrip_from_text (s : Parse.Spec) (hok : s.ok = true)
+    (ns : List Node) (items : List Item) (a : Ast)
+    (hns : mapOut (fun dl : Parse.Decl × Parse.Layout => dl.1.node) s.decls = .ok ns)
+    (hitems : itemsOf (ns ++ [.eof]) = .ok items) (ha : Ast.ofItems items = .ok a)
+    (hd : (items.filterMap typeEntry).Pairwise (fun x y => x.1 ≠ y.1))
+    (hc : C12.SupportedContent a = true) :
+    Ast.newLim (String.ofList s.text) = .ok a ∧
+    ∀ (m : Module), generateModule a = .ok m →
+      ∀ (n : String) (x : XVal), hasTypeNamed a n x = true →
+        ∀ (fuel : Nat), x.fsize < fuel → ∀ (off : Nat) (sfx : List Byte) (l : List Ev),
+          ∃ l', evalImpl a m.plans fuel n ⟨off, x.enc ++ sfx, l⟩ = .ok (reprNamed a n off x) ⟨off + x.enc.length, sfx, l'⟩ := by
+  have e1 := C12.C12_ast_closed_form_total s hok
+  simp only [hns, Out.bind_ok, hitems, ha] at e1
+  have hs : Supported a = true := by rw [C12.C12_supported_iff_content items a ha hd]; exact hc
+  exact ⟨e1, fun m hg n x hx fuel hf off sfx l => C01_roundtrip_supported a m hs hg n x hx fuel hf off sfx l⟩
+
+section example_from_text
+open Parse
+
+private def sp1 : Layout := ⟨[' '], []⟩
+private def nl0 : Layout := ⟨[], []⟩
+
+/-- `const A = 4; struct s { opaque o<A>; unsigned int n; };` with a comment and odd spacing -/
+def exT : Spec := ⟨⟨[], [(.long ['h', 'i'], ['\n'])]⟩, [
+  (.const ⟨sp1, ['A'], sp1, sp1, ['4'], nl0⟩, sp1),
+  (.struct ⟨sp1, ['s'], sp1, sp1,
+     [(⟨.prim .opaque [' '], nl0, none, ['o'], nl0, some (.var nl0 (some (.name ['A'], nl0)), nl0)⟩, sp1),
+      (⟨.prim (.uint [' ', '\t']) [' '], nl0, none, ['n'], nl0, none⟩, sp1)], nl0⟩, nl0)]⟩
+
+example : exT.ok = true := by decide
+example : String.ofList exT.text = "/*hi*/\nconst A = 4; struct s { opaque o<A>; unsigned \tint n; };" := by decide
+
+/-- the hypotheses of `C01_roundtrip_from_text` hold for it (non-vacuity) -/
+example : ∃ ns items a, mapOut (fun dl : Decl × Layout => dl.1.node) exT.decls = .ok ns ∧ itemsOf (ns ++ [.eof]) = .ok items ∧
+    Ast.ofItems items = .ok a ∧ (items.filterMap typeEntry).Pairwise (fun x y => x.1 ≠ y.1) ∧ C12.SupportedContent a = true :=
+  ⟨_, _, _, rfl, rfl, rfl, by decide, by decide⟩
+
+end example_from_text
 
 end Fx.C01
